@@ -27,6 +27,11 @@ use octseq::parse::Parser;
 #[cfg(feature = "serde")]
 use octseq::serde::{DeserializeOctets, SerializeOctets};
 
+/// Returns the length of an octets sequence produced by a scanner.
+fn scanned_len<S: Scanner>(octets: &S::Octets) -> usize {
+    octets.as_ref().len()
+}
+
 //------------ Nsec3 ---------------------------------------------------------
 
 #[derive(Clone)]
@@ -965,9 +970,11 @@ impl<Octs> Nsec3Salt<Octs> {
             }
         }
 
-        scanner
-            .convert_token(Converter::default())
-            .map(|res| unsafe { Self::from_octets_unchecked(res) })
+        let octets = scanner.convert_token(Converter::default())?;
+        if scanned_len::<S>(&octets) > Nsec3Salt::MAX_LEN {
+            return Err(S::Error::custom("NSEC3 salt too long"));
+        }
+        Ok(unsafe { Self::from_octets_unchecked(octets) })
     }
 
     pub fn parse<'a, Src: Octets<Range<'a> = Octs> + ?Sized>(
@@ -1301,9 +1308,12 @@ impl<Octs> OwnerHash<Octs> {
     pub fn scan<S: Scanner<Octets = Octs>>(
         scanner: &mut S,
     ) -> Result<Self, S::Error> {
-        scanner
-            .convert_token(base32::SymbolConverter::new())
-            .map(|octets| unsafe { Self::from_octets_unchecked(octets) })
+        let octets =
+            scanner.convert_token(base32::SymbolConverter::new())?;
+        if scanned_len::<S>(&octets) > OwnerHash::MAX_LEN {
+            return Err(S::Error::custom("NSEC3 owner hash too long"));
+        }
+        Ok(unsafe { Self::from_octets_unchecked(octets) })
     }
 
     /// Converts the hash into the underlying octets.
